@@ -282,6 +282,9 @@ func (w *world) mutate() {
 		} else {
 			w.lines = append(w.lines, w.g.Line())
 		}
+		if r.Chance(1, 4) {
+			w.lines = append(w.lines, w.g.WsTailLine()) // a last field ending in white space
+		}
 	}
 	// subnets come, go and change their location: range points move
 	if r.Chance(2, 3) {
@@ -295,6 +298,19 @@ func (w *world) mutate() {
 			}
 		}
 	}
+}
+
+// diffBytes writes diff lines as a file.  The reader (bufio.ScanLines) drops one trailing CR of a
+// line, so a line whose content ends in CR is written with one more, as it stands in the data file.
+func diffBytes(d []string, finalNewline bool) []byte {
+	e := make([]string, len(d))
+	for i, l := range d {
+		if strings.HasSuffix(l, "\r") {
+			l += "\r"
+		}
+		e[i] = l
+	}
+	return complib.Join(e, finalNewline)
 }
 
 func shuffledIdx(r *hlib.Rng, n int) []int {
@@ -412,7 +428,7 @@ func genCase(seed uint64, idx int) (*c08case, error) {
 	for s := 0; s < nsteps; s++ {
 		if r.Chance(1, 4) {
 			intent, d := failingDiff(w, cur)
-			c.Steps = append(c.Steps, stepJ{Diff: hlib.Ints(complib.Join(d, r.Chance(3, 4))), NewFile: hlib.Ints(cur), Intent: intent})
+			c.Steps = append(c.Steps, stepJ{Diff: hlib.Ints(diffBytes(d, r.Chance(3, 4))), NewFile: hlib.Ints(cur), Intent: intent})
 			continue
 		}
 		w.mutate()
@@ -447,7 +463,7 @@ func genCase(seed uint64, idx int) (*c08case, error) {
 			}
 			freshDone = true
 		}
-		c.Steps = append(c.Steps, stepJ{Diff: hlib.Ints(complib.Join(d, r.Chance(3, 4))), NewFile: hlib.Ints(next), Intent: intent, ExpectOk: true, FreshBy: fb})
+		c.Steps = append(c.Steps, stepJ{Diff: hlib.Ints(diffBytes(d, r.Chance(3, 4))), NewFile: hlib.Ints(next), Intent: intent, ExpectOk: true, FreshBy: fb})
 		cur = next
 	}
 	return c, nil
@@ -499,7 +515,20 @@ func genShape(seed uint64, idx int) (*c08case, error) {
 		return nil, err
 	}
 	shape := []string{"del-only", "add-only", "mixed", "empty-key", "del-one-of-equal", "del-absent"}[r.Pick([]int{4, 3, 3, 2, 2, 1})]
+	// records whose last field ends in white space (the compiler removes leading blanks only, and so
+	// must the diff reader): one in A and B, one in A only, one in B only
+	wsA, wsB := "", ""
+	if idx%3 != 0 {
+		wsA, wsB = g.WsTailLine(), g.WsTailLine()
+		othOld = append(othOld, g.WsTailLine(), wsA)
+		if cur, err = file(hotOld, othOld, nets); err != nil {
+			return nil, err
+		}
+	}
 	hotNew, othNew := append([]string{}, hotOld...), append([]string{}, othOld...)
+	if wsA != "" {
+		othNew = append(othNew[:len(othNew)-1], wsB) // the generic part of the diff below picks these up
+	}
 	var dHot, dOth []string // diff lines of the hot key and of the other keys
 	delHot := func(i int) {
 		dHot = append(dHot, "-"+hotNew[i])
@@ -620,7 +649,7 @@ func genShape(seed uint64, idx int) (*c08case, error) {
 	if idx%6 == 0 {
 		fb = "batches"
 	}
-	c.Steps = []stepJ{{Diff: hlib.Ints(complib.Join(d, true)), NewFile: hlib.Ints(next), Intent: shape, ExpectOk: expect, FreshBy: fb}}
+	c.Steps = []stepJ{{Diff: hlib.Ints(diffBytes(d, true)), NewFile: hlib.Ints(next), Intent: shape, ExpectOk: expect, FreshBy: fb}}
 	return c, nil
 }
 
